@@ -263,6 +263,11 @@ func runCheck(prop, tier string) int {
 	}
 	encSecs := time.Since(tEnc).Seconds()
 	owned := func(o *Obligation) bool {
+		// an obligation with an open known finding is decided (and reported) by the check of the finding's own
+		// property only; the check of another property that shares the function does not repeat it
+		if kf := known.Lookup(o); kf != nil && kf.Property != "" && kf.Property != prop {
+			return false
+		}
 		if hasProp(o.Props, prop) {
 			return true
 		}
